@@ -345,7 +345,7 @@ def run(chk):
     else:
         behs = generate(chk, 3)
         chk.count("behaviours steps<=3 (exhaustive)", len(behs))
-        sim = generate(chk, 7, simulate=60000)
+        sim = generate(chk, 7, simulate=8000)      # (num is per TLC worker: x16 behaviours)
         chk.count("behaviours steps<=7 (simulated)", len(sim))
         behs += sim
     tb = []
